@@ -24,6 +24,7 @@ let () =
          | "dumpfs" -> print_fs !idx !st
          | "counters" -> print_counters !idx !st
          | "clean" -> incr idx; st := Cmd_clean.run_clean !idx !st f
+         | "readsum" -> incr idx; Cmd_clean.run_readsum !idx f
          | c when Hashtbl.mem extra_cmds c ->
            incr idx; (Hashtbl.find extra_cmds c) !idx f
          | _ ->
